@@ -28,7 +28,7 @@ type protoCase struct {
 	Shape []pField `json:"shape"`
 	Val   pVal     `json:"val"`
 	Salt  int      `json:"salt"`
-	Ptr   bool     `json:"ptr"`            // value passed as *T instead of T
+	Ptr   bool     `json:"ptr"`             // value passed as *T instead of T
 	Bytes string   `json:"bytes,omitempty"` // hex input for decode-side cases
 	What  string   `json:"what,omitempty"`
 	Want  string   `json:"want_tree,omitempty"`
